@@ -36,8 +36,8 @@ def run(ctx):
             timeout=1500)
     gpath, g, r = vf.tlc_graph(ctx, 'H2Fingerprint', 'MC_C03_%s.cfg' % t, 'c03graph', timeout=1500)
     rng = random.Random(ctx.seed)
-    sample = 0.12 if t == 'quick' else 0.5
-    is_req = lambda e: e[2] == 'OnHeaders'
+    sample = 0.07 if t == 'quick' else 0.4
+    is_req = lambda e: e[2] in ('OnHeaders', 'OnRequestWithTrailers')
     epaths, total = vf.edge_cover_paths(g, rng, sample=sample, max_len=10, end_pred=is_req)
     paths = []
     nreq_edges = set()
@@ -50,8 +50,9 @@ def run(ctx):
             name, args = e[2], e[3]
             f = args[0] if args else {'OnSettingsAck': 'SA', 'OnPing': 'PING'}[name]
             st = {'f': f}
-            if name == 'OnHeaders':
+            if name in ('OnHeaders', 'OnRequestWithTrailers'):
                 st['expect'] = g['nodes'][e[1]]['fp']
+                st['alt'] = g['nodes'][e[1]]['fpAlt']
                 nreq_edges.add(ei)
             steps.append(st)
         # drop a trailing tail without a request (nothing observes it)
